@@ -27,6 +27,15 @@ var errProcTimeout = errors.New("process-level harness timeout")
 
 func desyncBin() string { return os.Getenv("VERIF_DESYNC_BIN") }
 
+// procRate is the denominator of the share of process-level cases; VERIF_DEV_PROC=1 (development only, never set by
+// the driver) turns every case into one.
+func procRate(n int) int {
+	if os.Getenv("VERIF_DEV_PROC") == "1" {
+		return 1
+	}
+	return n
+}
+
 // gateServer serves compressed chunks over HTTP and can hold the k-th request of a kind.
 type gateServer struct {
 	mu       sync.Mutex
